@@ -155,72 +155,88 @@ Definition astep (s : st) (a : act) : st * word :=
 
 Definition exec (s : st) (l : list act) : st := fold_left (fun s a => fst (astep s a)) l s.
 
-(* ---- running to quiescence (what synctest.Wait() does for the real goroutines) ---- *)
-Definition runnable (s : st) (e : Z * pc) : bool :=
-  dead s || match snd e with Retry => true | Blocked g => can_recv s g end.
+(* ---- running to quiescence (what synctest.Wait() does for the real goroutines) ----
+   [held] lists calls that the scheduler keeps between "registered as a waiter"
+   (executeAndPut returned false) and "parked in the select": they take no step until
+   released.  That is only a choice of schedule; the atomic steps are unchanged. *)
+Definition runnable (s : st) (held : list Z) (e : Z * pc) : bool :=
+  negb (mem (fst e) held) &&
+  (dead s || match snd e with Retry => true | Blocked g => can_recv s g end).
 
-Definition first_runnable (s : st) : option Z :=
-  match filter (runnable s) (thr s) with
+Definition first_runnable (s : st) (held : list Z) : option Z :=
+  match filter (runnable s held) (thr s) with
   | [] => None
   | e :: _ => Some (fst e)
   end.
 
-Fixpoint settle (fuel : nat) (s : st) : st :=
+Fixpoint settle (fuel : nat) (held : list Z) (s : st) : st :=
   match fuel with
   | O => s
-  | S f => match first_runnable s with
+  | S f => match first_runnable s held with
            | None => s
-           | Some t => settle f (exec s [ARecv t; ARetry t])
+           | Some t => settle f held (exec s [ARecv t; ARetry t])
            end
   end.
 
 Definition fuel_of (s : st) : nat := 4 * length (thr s) + 2.
 
+(* waiting calls that are held / parked, in registration order *)
+Definition held_in (s : st) (held : list Z) : list Z := filter (fun t => mem t held) (map fst (thr s)).
+Definition parked (s : st) (held : list Z) : list Z := filter (fun t => negb (mem t held)) (map fst (thr s)).
+
 (* cfg [m0] (-1: the server preface has no MAX_CONCURRENT_STREAMS = 2^32-1)
    [1] NewStream   [2; v] SETTINGS   [3; k; how] k-th open stream ends
-   [4; k] the k-th blocked call's context is cancelled   [5; kind] GOAWAY / Close (terminal)
+   [4; k] the context of the k-th parked call is cancelled
+   [5; kind] GOAWAY / Close (terminal) -- while calls are held it only releases all of them
    [6; w] a later SETTINGS frame that does not carry MAX_CONCURRENT_STREAMS (the limit stays)
-   obs [quota; waiting; #open; #blocked; #ctx errors; #terminal errors; n; ids seen by the
-        server this step (n); ids returned by NewStream this step (n)] *)
+   [7] NewStream whose caller is held before its first select if it has to wait
+   [8; k] the k-th held call is released (goes on to its select)
+   obs [quota; waiting; #open; #waiting calls; #of them held; #ctx errors; #terminal errors; n;
+        ids seen by the server this step (n); ids returned by NewStream this step (n)] *)
 Definition nth_mod (k : Z) (l : list Z) : option Z :=
   match l with
   | [] => None
   | _ => nth_error l (Z.to_nat (k mod Z.of_nat (length l)))
   end.
 
-Definition op_act (s : st) (tid : Z) (op : word) : option (list act) :=
+Definition op_act (s : st) (held : list Z) (tid : Z) (op : word) : option (list act * list Z) :=
   match op with
-  | [1] => Some [AFirst tid]
-  | [2; v] => Some [ASettings v]
-  | [3; k; _] => match nth_mod k (open s) with Some id => Some [AClose id] | None => Some [] end
-  | [4; k] => match nth_mod k (map fst (thr s)) with Some t => Some [ALeave t] | None => Some [] end
-  | [5; k] => Some [ADead k]
-  | [6; _] => Some []   (* handleSettings without MAX_CONCURRENT_STREAMS: no updateStreamQuota *)
+  | [1] => Some ([AFirst tid], held)
+  | [2; v] => Some ([ASettings v], held)
+  | [3; k; _] => match nth_mod k (open s) with Some id => Some ([AClose id], held) | None => Some ([], held) end
+  | [4; k] => match nth_mod k (parked s held) with Some t => Some ([ALeave t], held) | None => Some ([], held) end
+  | [5; k] => match held_in s held with [] => Some ([ADead k], held) | _ => Some ([], []) end
+  | [6; _] => Some ([], held)  (* handleSettings without MAX_CONCURRENT_STREAMS: no updateStreamQuota *)
+  | [7] => Some ([AFirst tid], tid :: held)
+  | [8; k] => match nth_mod k (held_in s held) with Some t => Some ([], remove_z t held) | None => Some ([], held) end
   | _ => None
   end.
 
 Definition is_leave (l : list act) : Z := match l with [ALeave _] => 1 | _ => 0 end.
 
-Definition op_step (s : st) (tid : Z) (op : word) : option (st * word) :=
-  match op_act s tid op with
+Definition op_step (s : st) (held : list Z) (tid : Z) (op : word) : option (st * list Z * word) :=
+  match op_act s held tid op with
   | None => None
-  | Some acts =>
+  | Some (acts, held') =>
     let s1 := exec s acts in
-    let s2 := settle (fuel_of s1) s1 in
+    let s2 := settle (fuel_of s1) held' s1 in
     let new := skipn (length (adm s)) (adm s2) in
-    Some (s2, [quota s2; waiting s2; Z.of_nat (length (open s2)); Z.of_nat (length (thr s2));
-               (if dead s2 then 0 else is_leave acts);
-               (if dead s2 then Z.of_nat (length (thr s1)) else 0);
-               Z.of_nat (length new)] ++ new ++ new)
+    Some (s2, held',
+          [quota s2; waiting s2; Z.of_nat (length (open s2)); Z.of_nat (length (thr s2));
+           Z.of_nat (length (held_in s2 held'));
+           (if dead s2 then 0 else is_leave acts);
+           (if dead s2 then Z.of_nat (length (thr s1)) else 0);
+           Z.of_nat (length new)] ++ new ++ new)
   end.
 
-Fixpoint go (s : st) (tid : Z) (ops : list word) : option (list word) :=
+Fixpoint go (s : st) (held : list Z) (tid : Z) (ops : list word) : option (list word) :=
   match ops with
   | [] => Some []
   | op :: r =>
     if dead s then Some [] else
-    match op_step s tid op with
-    | Some (s', o) => match go s' (tid + 1) r with Some os => Some (o :: os) | None => None end
+    match op_step s held tid op with
+    | Some (s', held', o) =>
+      match go s' held' (tid + 1) r with Some os => Some (o :: os) | None => None end
     | None => None
     end
   end.
@@ -229,18 +245,19 @@ Definition max_of_cfg (m0 : Z) : Z := if m0 <? 0 then max_u32 else m0.
 
 Definition run (cfg : word) (ops : list word) : option (list word) :=
   match cfg with
-  | [m0] => go (init (max_of_cfg m0)) 0 ops
+  | [m0] => go (init (max_of_cfg m0)) [] 0 ops
   | _ => None
   end.
 
 (* ---- the property on an observed trace ----
-   tracker: current advertised limit, last stream id seen by the server, terminal flag
+   tracker: current advertised limit, last stream id seen by the server, number of held
+   calls, terminal flag
    clause 1: ledger  streamQuota + #open = limit
    clause 2: if a stream opened in this step then #open <= current limit
    clause 3: ids seen by the server are odd and strictly increasing; NewStream returned the same ids
-   clause 4: a call is blocked only while no quota is free (quota <= 0)
+   clause 4: a call is parked in its select only while no quota is free (quota <= 0)
    clause 5: after GOAWAY / Close no call stays blocked and nothing opens *)
-Record trk := mkt { t_max : Z; t_last : Z; t_dead : bool }.
+Record trk := mkt { t_max : Z; t_last : Z; t_nh : Z; t_dead : bool }.
 
 Fixpoint incr_odd (last : Z) (l : list Z) : bool :=
   match l with
@@ -250,16 +267,16 @@ Fixpoint incr_odd (last : Z) (l : list Z) : bool :=
 
 Definition cl_op (t : trk) (op obs : word) : trk * list (Z * Z * bool) :=
   match obs with
-  | q :: w :: no :: nb :: nctx :: nterm :: n :: ids =>
+  | q :: w :: no :: nb :: nh :: nctx :: nterm :: n :: ids =>
     match take_n (Z.to_nat n) ids with
     | Some (sids, cids) =>
       let mx' := match op with [2; v] => v | _ => t_max t end in
-      let dd := match op with [5; _] => true | _ => false end in
-      let t' := mkt mx' (last sids (t_last t)) dd in
+      let dd := match op with [5; _] => t_nh t =? 0 | _ => false end in
+      let t' := mkt mx' (last sids (t_last t)) nh dd in
       (t', [(3, n, (0 <=? n) && incr_odd (t_last t) sids && word_eqb sids cids);
             (1, q, dd || (q + no =? mx'));
             (2, no, dd || (n <=? 0) || (no <=? mx'));
-            (4, nb, dd || (nb <=? 0) || (q <=? 0));
+            (4, nb - nh, dd || (nb - nh <=? 0) || (q <=? 0));
             (5, nb, negb dd || ((nb =? 0) && (n =? 0)))])
     | None => (t, [(0, 0, false)])
     end
@@ -279,7 +296,7 @@ Fixpoint cl_go (t : trk) (ops obs : list word) : list (Z * Z * bool) :=
 
 Definition clauses (cfg : word) (ops obs : list word) : list (Z * Z * bool) :=
   match cfg with
-  | [m0] => cl_go (mkt (max_of_cfg m0) 0 false) ops obs
+  | [m0] => cl_go (mkt (max_of_cfg m0) 0 0 false) ops obs
   | _ => [(0, 0, false)]
   end.
 
